@@ -409,6 +409,10 @@ def _w1_sweep(ctx: Context) -> None:
                     continue
                 if role[0] == "item-store":
                     n_mut += 1
+                    if q == CANCEL and _is_clear_all(n.ast, lambda e: _is_queue(strip_sites(T.of(cfg, n, e)))):
+                        # `del q[:]` in the fail-everything function: legitimate when every snapshotted future is failed (C08.G3)
+                        ck.holds("C08.W1", f"{where}: the FIFO is emptied as a whole (`{norm_stmt(n.text())}`); that all its futures are failed is C08.G3", loc)
+                        continue
                     ck.violated("C08.W1", f"{ctx.fkey(f)}:item-store", f"{where}: an element of {QUEUE} is replaced/deleted in place "
                                 f"(`{norm_stmt(n.text())}`)", loc)
                     continue
@@ -447,6 +451,9 @@ def _w1_sweep(ctx: Context) -> None:
                     continue
                 if meth in MUTATORS:
                     n_mut += 1
+                    if q == CANCEL and meth == "clear":
+                        ck.holds("C08.W1", f"{where}: the FIFO is emptied as a whole ({QUEUE}.clear()); that all its futures are failed is C08.G3", loc)
+                        continue
                     if q == CANCEL or q in inits:
                         ck.unknown("C08.W1", f"{where}: {QUEUE}.{meth}() - shape of the owner method not recognised", loc)
                     else:
@@ -457,6 +464,94 @@ def _w1_sweep(ctx: Context) -> None:
     ck.stats["c08_queue_mutation_sites"] = n_mut
     ck.stats["c08_queue_read_sites"] = n_read
     ck.require_min("C08.W1", f"mutation sites of {QUEUE} (create, append, two pops)", n_mut, 4)
+
+
+def _is_clear_all(st, is_queue_expr) -> bool:
+    """`del q[:]`"""
+    if isinstance(st, ast.Delete) and len(st.targets) == 1:
+        t = st.targets[0]
+        return isinstance(t, ast.Subscript) and isinstance(t.slice, ast.Slice) and t.slice.lower is None and t.slice.upper is None and t.slice.step is None and is_queue_expr(t.value)
+    return False
+
+
+def _cancel_snapshot_form(ctx: Context, f, cfg) -> bool:
+    """The other way to fail everything: snapshot the FIFO, empty it as a whole, then fail every snapshotted future that
+    is not done.  Returns True when this form is present (and was decided)."""
+    ck = ctx.ck
+    T = ctx.terms
+    prog = ctx.prog
+    queue = _self_attr(QUEUE)
+    snaps, clears = [], []
+    for n in cfg.nodes:
+        a = n.ast
+        if n.kind != "stmt":
+            continue
+        if isinstance(a, ast.Assign) and len(a.targets) == 1 and isinstance(a.targets[0], ast.Name):
+            t = strip_sites(T.of(cfg, n, a.value))
+            is_copy = (t[0] == "call" and t[1] in (("glob", "list"), ("glob", "tuple")) and t[2] == (queue,)) or \
+                      (t[0] == "sub" and t[1] == queue and t[2][0] == "slice" and t[2][1] is None and t[2][2] is None) or \
+                      (t[0] == "call" and t[1] == ("attr", queue, "copy"))
+            if is_copy:
+                snaps.append((n, t))
+        if _is_clear_all(a, lambda e, n=n: strip_sites(T.of(cfg, n, e)) == queue):
+            clears.append(n)
+        for c, recv, meth in _mcalls(ctx, cfg, n):
+            if meth == "clear" and _is_queue(recv):
+                clears.append(n)
+    if not snaps or not clears:
+        return False
+    sn, st = snaps[0]
+    gate = [e for c in clears for e in ctx.normal_out(cfg, c)]
+    ctx.must_pass("C08.G3", cfg, cfg.exit, f"`{QUEUE}` emptied as a whole", gate, desc="_cancel_pending_requests returns only after the FIFO was emptied")
+    for c in clears:
+        p = cfg.find_path(cfg.entry.id, c.id, avoid_nodes=[sn.id])
+        ck.check("C08.G3", p is None, "_cancel_pending_requests: the FIFO is snapshotted before it is emptied", f"{ctx.fkey(f)}:cleared-before-snapshot",
+                 "_cancel_pending_requests empties the FIFO before taking the snapshot of its futures: they are forgotten, their requests hang", ctx.loc(f, c))
+    esc = sorted(ctx.flow.esc(CANCEL))
+    ck.check("C08.G3", not esc, "_cancel_pending_requests: empty escape set (it cannot stop half-way with an exception)",
+             f"{ctx.fkey(f)}:escapes", f"_cancel_pending_requests can raise {esc}: the remaining requests are never failed", f.loc())
+    loops = [h for h in cfg.nodes if h.kind == "for" and strip_sites(T.of(cfg, [x for x in cfg.nodes if x.kind == "for_iter" and x.ast is h.ast][0], h.ast.iter)) == st]
+    if len(loops) != 1 or not isinstance(loops[0].ast.target, ast.Name):
+        ck.unknown("C08.G3", "_cancel_pending_requests: no single loop over the snapshot of the FIFO found", f.loc())
+        return True
+    h = loops[0]
+    p = cfg.find_path(cfg.entry.id, cfg.exit.id, avoid_nodes=[h.id])
+    ck.check("C08.G3", p is None, "_cancel_pending_requests: every return passes the loop over the snapshot", f"{ctx.fkey(f)}:snapshot-loop-skipped",
+             "_cancel_pending_requests can return without walking the snapshot of the FIFO", f.loc(), cfg.render_path(p) if p else None)
+    body_entry = [e[1] for e in cfg.out_edges(h, ("T",))]
+    elem = None
+    for b in body_entry:
+        elem = strip_sites(T.var_at(cfg, cfg.nodes[b], h.ast.target.id))
+    nd, done = _done_edges(ctx, cfg, elem)
+    fails = set()
+    n_fail = 0
+    for m in cfg.nodes:
+        for c, recv, meth in _mcalls(ctx, cfg, m):
+            if meth not in COMPLETERS or recv != elem:
+                continue
+            cls = _exc_class(ctx, cfg, m, c.args[0] if c.args else None) if meth == "set_exception" else None
+            good = meth == "set_exception" and cls is not None and prog.is_subclass(cls, ADE)
+            ck.check("C08.G3", good, "_cancel_pending_requests fails the pending request with AccessoryDisconnectedError", f"{ctx.fkey(f)}:wrong-completion:{meth}",
+                     f"_cancel_pending_requests ends a pending request with `{norm_stmt(m.text())}`, not with a disconnection error", ctx.loc(f, m))
+            if good:
+                fails.add(m.id)
+                n_fail += 1
+            p = cfg.find_path(cfg.entry.id, m.id, avoid_edges=nd)
+            ck.check("C08.G3", p is None, f"_cancel_pending_requests: {meth}() only under `not <future>.done()`", f"{ctx.fkey(f)}:unguarded:{meth}",
+                     f"_cancel_pending_requests: {meth}() is not guarded by `not done()`: a request that already timed out or was cancelled raises "
+                     "InvalidStateError and the requests behind it are never failed", ctx.loc(f, m), cfg.render_path(p) if p else None)
+    bad = None
+    for b in body_entry:
+        if b in fails:
+            continue
+        p = cfg.find_path(b, {h.id, cfg.exit.id}, avoid_nodes=fails, avoid_edges=done)
+        if p is not None:
+            bad = p
+    ck.check("C08.G3", bad is None and n_fail >= 1, "_cancel_pending_requests: every snapshotted future that is not done is failed",
+             f"{ctx.fkey(f)}:popped-not-failed", "_cancel_pending_requests skips a pending future of the snapshot without failing it: that request hangs",
+             ctx.loc(f, h), cfg.render_path(bad) if bad else None)
+    ck.stats["c08_cancel_fail_sites"] = n_fail
+    return True
 
 
 def _w1_order(ctx: Context) -> None:
@@ -1199,6 +1294,8 @@ def _g3(ctx: Context) -> None:
     f = ctx.func(CANCEL)
     cfg = ctx.cfg(CANCEL)
     queue = _self_attr(QUEUE)
+    if _cancel_snapshot_form(ctx, f, cfg):
+        return
     empty, nonempty = [], []
     for n, t, tl, fl in _tests(ctx, cfg):
         if t == queue or (t[0] == "call" and t[1] in (("glob", "len"), ("glob", "bool")) and t[2] == (queue,) and not t[3]):
